@@ -361,6 +361,10 @@ func (m Media) Marshal() ([]byte, error) {
 		ret += "#EXT-X-INDEPENDENT-SEGMENTS\n"
 	}
 
+	if m.Start != nil {
+		ret += m.Start.marshal()
+	}
+
 	if m.AllowCache != nil {
 		var v string
 		if *m.AllowCache {
